@@ -34,6 +34,7 @@ type c17Case struct {
 	Big         bool   `json:"big,omitempty"`         // slice size 96 and larger files, so that the goroutine option really splits the work
 	Blocks      int    `json:"blocks,omitempty"`      // recovery blocks / volumes (default 3)
 	PriorBlocks int    `json:"priorblocks,omitempty"` // history inside the process: an unrelated Create with this many blocks ran just before
+	Link        int    `json:"link,omitempty"`        // 1: the first input is a symbolic link (relative) to its bytes, which lie beside it under another name; 2: absolute link to bytes outside the set directory. The link's own name and place are what counts
 	PriorGen    bool   `json:"priorgen,omitempty"`    // history inside the process (with Look): a Create of ANOTHER GENERATION of the same inputs - same names, lengths and first 16 KiB, other tails - ran just before in a directory of its own
 	Names       int    `json:"names,omitempty"`       // 1: directory names that are string prefixes of sibling file names (photos/ and photos.txt, photos/deep/ and photos/deep.bak)
 	Look        bool   `json:"look,omitempty"`        // look-alike inputs: every file 17000 bytes with the same first 16 KiB, different tails (slice size 1000)
@@ -145,6 +146,20 @@ func c17CreateIn(c *c17Case, seed int64, r *core.Rec, stale map[string][]byte) (
 		}
 		ioutil.WriteFile(p, scen.Content(class, seed, i, sz, 4), 0644)
 		abs = append(abs, p)
+	}
+	if c.Link != 0 && len(abs) > 0 {
+		target := abs[0] + ".target"
+		linkTo := filepath.Base(target)
+		if c.Link == 2 {
+			os.MkdirAll(unrelated, 0755)
+			target = filepath.Join(unrelated, "bytes-of-f0")
+			linkTo = target
+		}
+		if os.Rename(abs[0], target) == nil {
+			if os.Symlink(linkTo, abs[0]) != nil {
+				os.Rename(target, abs[0])
+			}
+		}
 	}
 	for n, b := range stale {
 		ioutil.WriteFile(filepath.Join(setDir, n), b, 0644)
@@ -621,6 +636,18 @@ func c17Gen(g *core.Gen) {
 			for _, b := range []int{5, 6, 7, 9, 12} {
 				for _, pb := range []int{0, 5, 6, 9, 20} {
 					g.Emit(&c17Case{Fmt: f, N: n, G: 1 + (b+pb)%3, Cwd: cwds[(b+pb)%3], Spell: "rel", Via: "lib", Blocks: b, PriorBlocks: pb})
+				}
+			}
+			// the first input is a symbolic link to its bytes
+			for li := 1; li <= 2; li++ {
+				for ci, cw := range cwds {
+					for _, sp := range spells {
+						via := "lib"
+						if (ci+len(sp)+li)%3 == 0 {
+							via = "cli"
+						}
+						g.Emit(&c17Case{Fmt: f, N: n, G: 1 + ci, Cwd: cw, Spell: sp, Via: via, Link: li})
+					}
 				}
 			}
 			// look-alike inputs (same length, same first 16 KiB): every permutation x goroutines {1,3}
